@@ -186,7 +186,7 @@ def handleHighlight (op : String) (req : Json) : Option Json :=
   match op with
   | "highlight" =>
     let s := cps (getStr req "s")
-    some <| match MC.Highlight.brailleResult (getNat req "code") (getStr req "style") s with
+    some <| match MC.Highlight.brailleResult (getNat req "code") (getStr req "style") ((req.getObjValAs? Bool "found").toOption.getD true) s with
       | some (r, a, b) => okJ (Json.arr #[toJson (ofCps r), toJson a, toJson b, toJson (MC.Highlight.allCells s)])
       | none => panicJ "braille.rs:highlight_first_indicator"
   | _ => none
